@@ -3,6 +3,7 @@ package harness
 import (
 	"context"
 	"encoding/binary"
+	"fmt"
 	"math/rand"
 	"net"
 	"testing"
@@ -289,7 +290,8 @@ func TestC11(t *testing.T) {
 		}
 		if i%3 == 2 { // identities that spell an address of the network in four octets, or its text form
 			a, b := lo+1+uint32(r.Intn(int(minU32(size-1, 6)))), lo+1+uint32(r.Intn(int(minU32(size-1, 6))))
-			duids = [][]byte{u32b(a), u32b(b), []byte(ip4(a).String()), {0, 3, 0, 0, 1}, {}}
+			// ... or the text under which the table itself files an address / another identity
+			duids = [][]byte{u32b(a), u32b(b), []byte(ip4(a).String()), {0, 3, 0, 0, 1}, {}, []byte(fmt.Sprintf("uip(%x)", a)), []byte(fmt.Sprintf("uip(%x)", b)), []byte("<duid:00-03-00-00-01>")}
 		}
 		n := 6 + r.Intn(35)
 		var ops []dbOp
